@@ -12,13 +12,22 @@
     ([sphere_intersect_local_ray], [sphere_simple_intersect_local_ray], [sphere_intersect], [sphere_simple_intersect],
     [sphere_info], [sphere_world_bounds], [sphere_centre], their [cyl_*] counterparts, [cyl_new]), compared with the
     crate's result under the same tolerance policy; both must agree with the crate. *)
-From G3 Require Import Run.Harness Model.Vec Model.BBox Model.RoundError Model.Transform Model.Hit Model.Sphere Model.Cylinder.
+From G3 Require Import Run.Harness Run.FastNum32 Model.NumF32 Model.Vec Model.BBox Model.RoundError Model.Transform Model.Hit Model.Sphere Model.Cylinder.
 From G3 Require Import Run.C06.
 
 Local Open Scope float_scope.
-Definition tolc : float := 0x1p-40.     (* libm-dependent values *)
-Definition toln : float := 0x1p-30.     (* ~1e-9: sphere normals / dpdv *)
-Definition margin : float := 0x1.12e0be826d695p-30.  (* 1e-9 *)
+(** The runner text is written once, over the number instance [NK : Num float] and the five libm parameters; the modules
+    at the end of the file instantiate it for the f64 build ([Quadric]: [NumF]) and for the f32 build ([Quadricf32]:
+    [NumF32fast] = [NumF32] (Run/FastNum32Proof.v); the platform's single-precision libm against the binary32 rounding of the
+    software libm):
+    - [tolc]   libm-dependent values ([phi], constructor angles, placement matrices);
+    - [toln]   sphere normals / [dpdv] (theta = acos (z / r) divided by sin theta: [tolc] amplified by 1 / [pole]);
+    - [margin] the least margin at which a decision on a libm result is compared;
+    - [pole]   |sin theta| below which the sphere's [dpdv] / normal are numerically meaningless;
+    - [tolm]   the placement matrices of [Cylinder3D::new] / [new_partial]: two libm round trips (atan2 -> degrees -> radians ->
+               sin / cos) whose error is then multiplied by the translation (|p0| up to 17 in the stream) in the inverse matrix. *)
+Section WithInstance.
+Context {NK : Num float} (tolc toln margin pole tolm : float).
 
 Definition close1 (tol a b : float) : bool := fclose tol a b.
 Fixpoint closeL (tol : float) (a : list K) (b : list spec_float) : bool :=
@@ -87,7 +96,7 @@ Definition shape_of (is_cyl : bool) (p : list spec_float) : shape :=
   else
     let s := sphere_of p in
     mkShape (sphere_basic_tag s) (sphere_clear s) (sphere_basic_debug_ok s) (sphere_dpdu s) (sphere_dpdv s) true
-            (fun q => negb (PrimFloat.ltb 0x1p-20 (abs (sphere_sin_theta s q)))) (stransform s)
+            (fun q => negb (PrimFloat.ltb pole (abs (sphere_sin_theta s q)))) (stransform s)
             (sphere_intersect_local_ray s) (sphere_simple_intersect_local_ray s) (sphere_intersect s) (sphere_simple_intersect s)
             (sphere_info s).
 
@@ -244,7 +253,7 @@ Definition cyl_fields_ok (c : Cyl K) (e : list spec_float) : bool :=
   exact_eq [cradius c; czmin c; czmax c; cphi_max c] (slice e 0 4).
 Definition cyl_tr_ok (c : Cyl K) (e : list spec_float) : bool :=
   match ctransform c with
-  | Some t => is1 (fl e 4) && closeL tolc (tr_list t) (skipn 5 e)
+  | Some t => is1 (fl e 4) && closeL tolm (tr_list t) (skipn 5 e)
   | None => negb (is1 (fl e 4))
   end.
 Definition chk_cyl_ctor (variant : N) (a : list spec_float) (flag : N) (e : list spec_float) : N :=
@@ -315,6 +324,14 @@ Definition chk (c : N * list spec_float * list spec_float * N * list spec_float)
   | _ => let t := chk_hit is_cyl op p i flag e in if N.eqb t 0 then 0%N else (if is_cyl then 1000 + t else t)%N
   end%N.
 
+End WithInstance.
+
 Module Quadric.
-  Definition run := run_cases chk.
+  Definition run := run_cases (@chk NumF 0x1p-40 0x1p-30 0x1.12e0be826d695p-30 0x1p-20 0x1p-40).
 End Quadric.
+(** the f32 build: libm values at 2^-20 (8 ulp32), pole band |sin theta| <= 2^-8, hence normals / dpdv at 2^-12;
+    libm-dependent decisions compared when the margin exceeds 2^-12; placement matrices at 2^-14 (an angle of up to 360 degrees is
+    good to 1 ulp32 = 2.7e-7 rad only, and the inverse matrix multiplies that by the translation) *)
+Module Quadricf32.
+  Definition run := run_cases (@chk NumF32fast 0x1p-20 0x1p-12 0x1p-12 0x1p-8 0x1p-14).
+End Quadricf32.
